@@ -130,6 +130,16 @@ pub const fn bit(k: u32) -> u32 {
     1u32 << k
 }
 
+/// T9: a run-time CPU feature test; the properties quantify over every CPU
+#[cfg(kani)]
+pub fn any_cpu_feature() -> bool {
+    kani::any()
+}
+#[cfg(not(kani))]
+pub fn any_cpu_feature() -> bool {
+    false
+}
+
 #[cfg(kani)]
 pub fn snapshot() {
     unsafe {
